@@ -20,7 +20,7 @@ from .common import jsonable
 # build used by the workers of each property, (quick shards, thorough shards)
 PROPS = {
     "C01": ("compiled", 8, 16), "C02": ("compiled", 8, 16), "C03": ("compiled", 8, 16),
-    "C04": ("compiled", 8, 16), "C05": ("compiled", 8, 16), "C06": ("compiled", 8, 16),
+    "C04": ("compiled", 8, 16), "C05": ("compiled", 8, 16), "C06": ("compiled", 9, 16),
     "C07": ("pure", 8, 16), "C08": ("pure", 8, 16), "C09": ("pure", 8, 16),
     "C10": ("pure", 8, 16), "C11": ("compiled", 8, 16), "C12": ("compiled", 8, 16),
     "C13": ("compiled", 8, 16), "C14": ("pure", 8, 16), "C15": ("pure", 8, 16),
